@@ -121,9 +121,12 @@ func (c *c09Conn) Close() error {
 	}
 	return nil
 }
-func (c *c09Conn) LocalAddr() net.Addr                { return nil }
-func (c *c09Conn) RemoteAddr() net.Addr               { return nil }
-func (c *c09Conn) SetDeadline(t time.Time) error      { c.rdl, c.wdl, c.rdlSet, c.wdlSet = t, t, true, true; return nil }
+func (c *c09Conn) LocalAddr() net.Addr  { return nil }
+func (c *c09Conn) RemoteAddr() net.Addr { return nil }
+func (c *c09Conn) SetDeadline(t time.Time) error {
+	c.rdl, c.wdl, c.rdlSet, c.wdlSet = t, t, true, true
+	return nil
+}
 func (c *c09Conn) SetReadDeadline(t time.Time) error  { c.rdl, c.rdlSet = t, true; return nil }
 func (c *c09Conn) SetWriteDeadline(t time.Time) error { c.wdl, c.wdlSet = t, true; return nil }
 
